@@ -172,6 +172,16 @@ func opSweep(w *World, s *Step) (string, string) {
 		for v := 0; v < 256; v++ {
 			faults = append(faults, Fault{Kind: "sknext", Val: v})
 		}
+	case "icvpairs":
+		// two checksum octets altered together: the same bit flipped in both, and deltas adding up to 256
+		for i := n - s.N; i >= 0 && i < n; i++ {
+			for j := i + 1; j < n; j++ {
+				for b := 0; b < 8; b++ {
+					faults = append(faults, Fault{Kind: "edit2", Off: i, Val: j, Bit: 1 << uint(b), Len: 1 << uint(b)})
+				}
+				faults = append(faults, Fault{Kind: "edit2", Off: i, Val: j, Bit: 0x40, Len: 0xc0}, Fault{Kind: "edit2", Off: i, Val: j, Bit: 0x01, Len: 0xff})
+			}
+		}
 	default:
 		return "badsweep", "badsweep"
 	}
@@ -336,6 +346,9 @@ func genC02(r *Rng, idx int, tier string) *Scenario {
 		)
 		if r.Chance(1, 2) {
 			sc.Steps = append(sc.Steps, Step{Op: "sweep", Sweep: "sknext", Dgram: t, Rx: rx(), Obj: obj()})
+		}
+		if r.Chance(1, 3) {
+			sc.Steps = append(sc.Steps, Step{Op: "sweep", Sweep: "icvpairs", Dgram: t, N: icv, Rx: rx(), Obj: obj()})
 		}
 	}
 	// authentic but malformed: valid checksum, impossible pad length / IV only / misaligned / too short
